@@ -195,3 +195,53 @@ Qed.
 Definition k17_init : k17 := {| kp := []; kpid := false; kclosed := false; ktrack := true |}.
 Lemma tracks_init : tracks cinit k17_init.
 Proof. repeat split. Qed.
+
+(* ---------- C16: what goes on the wire and what GetStatus hands back, as the judge reads them ---------- *)
+Lemma wire_eqb_refl (x : wire) : wire_eqb x x = true.
+Proof. destruct x as [[t f] d]. cbn [wire_eqb]. rewrite !N.eqb_refl. cbn [andb]. apply bytes_eqb_refl'. Qed.
+Lemma wires_eqb_refl (l : list wire) : wires_eqb l l = true.
+Proof. induction l as [|x l IH]; [reflexivity|]. cbn [wires_eqb]. rewrite wire_eqb_refl. exact IH. Qed.
+
+Lemma get_status_sends s w s1 w1 r ws : get_status s w = (s1, w1, r, ws) -> ws = [(AuditGet, REQ_ACK, [])].
+Proof.
+  unfold get_status, do_send. destruct (sfaults w) as [|[x|] fs].
+  - destruct (reply _ _) as [r0 rest]. destruct (check_ack r0); [|destruct (reply _ _)]; intros H; injection H as _ _ _ <-; reflexivity.
+  - intros H. injection H as _ _ _ <-. reflexivity.
+  - destruct (reply _ _) as [r0 rest]. destruct (check_ack r0); [|destruct (reply _ _)]; intros H; injection H as _ _ _ <-; reflexivity.
+Qed.
+
+(* the judge's C16 clause accepts the model's Set* on every script and fault, and its GetStatus whenever the request was sent *)
+Theorem chk_c16_accepts_set s w k v wait :
+  let '(_, _, (r, ws, _)) := cstep s w (OSet k v wait) in chk_c16_call (OSet k v wait) (next_seq s) (rscript w) r ws = true.
+Proof.
+  cbn [cstep]. pose proof (setter_sends s w k v wait) as H. destruct (cset s w k v wait) as [[[s1 w1] r] ws]. cbn [snd] in H.
+  cbn [chk_c16_call]. rewrite H. apply wires_eqb_refl.
+Qed.
+
+Theorem chk_c16_accepts_get_status s w : no_fault w ->
+  let '(_, _, (r, ws, _)) := cstep s w OGetStatus in chk_c16_call OGetStatus (next_seq s) (rscript w) r ws = true.
+Proof.
+  intros Hn. pose proof (get_status_is s w Hn) as HR. cbn [cstep] in *.
+  destruct (get_status s w) as [[[s1 w1] r] ws] eqn:E. cbn [snd result_of fst] in HR.
+  rewrite (get_status_sends _ _ _ _ _ _ E). cbn [chk_c16_call].
+  assert (Hw : wires_eqb [(AuditGet, REQ_ACK, [])] [(UAPI_AUDIT_GET, UAPI_REQ_ACK, [])] = true) by (vm_compute; reflexivity).
+  rewrite Hw. cbn [andb]. clear Hw E.
+  set (q := next_seq s) in *. set (script := rscript w) in *. unfold get_status_result in HR.
+  destruct (spec_ack q script) as [e rest0| |] eqn:Ea.
+  - destruct (spec_ack_reply _ _ _ _ Ea) as (ty & d & Hr & Hc). rewrite Hr, Hc in HR.
+    destruct (Z.eqb e 0) eqn:Ee.
+    + pose proof (spec_reply q rest0) as HS.
+      destruct (spec_next q rest0 0) as [ty2 d2 rest2| |].
+      * rewrite HS in HR. change AuditGet with UAPI_AUDIT_GET in HR.
+        destruct (ty2 =? UAPI_AUDIT_GET) eqn:Et.
+        -- rewrite StatusProofs.from_wire_spec in HR. change UAPI_MIN_AUDIT_STATUS with 32 in HR.
+           destruct (N.ltb_spec (N.of_nat (length d2)) 32) as [Hlt|Hge].
+           ++ subst r. reflexivity.
+           ++ subst r. apply N.leb_le in Hge. rewrite Hge. cbn [andb]. apply listN_eqb_refl.
+        -- subst r. cbn [andb]. reflexivity.
+      * destruct HS as [r' HS]. rewrite HS in HR. subst r. reflexivity.
+      * destruct r as [|got|rs|n|ty' d'|er|]; try reflexivity; destruct er; reflexivity.
+    + subst r. reflexivity.
+  - destruct (spec_ack_foreign _ _ Ea) as [r' Hr]. rewrite Hr in HR. cbn [check_ack] in HR. subst r. reflexivity.
+  - destruct r as [|got|rs|n|ty' d'|er|]; try reflexivity; destruct er; reflexivity.
+Qed.
